@@ -205,16 +205,26 @@ Fixpoint name_prefix (parts : list string) : list string :=
 
 Definition has_index (parts : list string) : bool := existsb is_num parts.
 
-(** C20-F3: two different variables address the same list, and that list lies
-    below at least one map key (its name has two or more segments) *)
-Definition guard_F3 (ne : list (string * string)) : bool :=
-  negb (pairwise (fun a b =>
-          let pa := split_dot (fst a) in
-          let pb := split_dot (fst b) in
-          negb (has_index pa && has_index pb &&
-                segs_eqb (name_prefix pa) (name_prefix pb) &&
-                (2 <=? length (name_prefix pa)) &&
-                negb (String.eqb (fst a) (fst b) && String.eqb (snd a) (snd b)))) ne).
+Fixpoint is_prefix (a b : list string) : bool :=
+  match a, b with
+  | [], _ => true
+  | x :: a', y :: b' => String.eqb x y && is_prefix a' b'
+  | _ :: _, [] => false
+  end.
+
+(** one pair of variables is free of the C20-F3 shape *)
+Definition f3_pair (a b : string * string) : bool :=
+  let ka := name_prefix (split_dot (fst a)) in
+  let kb := name_prefix (split_dot (fst b)) in
+  negb (((is_prefix ka kb && (2 <=? length ka)) || (is_prefix kb ka && (2 <=? length kb))) &&
+        negb (String.eqb (fst a) (fst b) && String.eqb (snd a) (snd b))).
+
+(** C20-F3: the key prefix (the name segments before the first index) of one
+    variable, two or more segments long, is the key prefix of another variable
+    or an initial part of it — the place where cleanSuffix meets two keys of the
+    same name.  Within the property's domain this is: two different variables
+    address the same list, and that list lies below at least one map key. *)
+Definition guard_F3 (ne : list (string * string)) : bool := negb (pairwise f3_pair ne).
 
 (** C20-F4: below a list index a variable continues with two or more name
     segments (a nested structure inside a list element) *)
